@@ -20,6 +20,7 @@ import (
 	"github.com/zenon-network/go-zenon/common/db"
 	"github.com/zenon-network/go-zenon/common/types"
 	"github.com/zenon-network/go-zenon/consensus"
+	"github.com/zenon-network/go-zenon/rpc/api/embedded"
 	"github.com/zenon-network/go-zenon/verifier"
 	"github.com/zenon-network/go-zenon/vm"
 	"github.com/zenon-network/go-zenon/zenon/mock"
@@ -128,6 +129,9 @@ type contractRun struct {
 	deadIds   []types.Hash // ids of entries that were released (for repeated attempts)
 	preimages map[types.Hash][]byte
 	proxy     map[types.Address]bool // htlc: explicit proxy-unlock settings seen in confirmed receives
+	proxyCalls map[types.Address]int // htlc: number of confirmed Allow/Deny receives per sender
+	proxyHist map[types.Address]string // htlc: the confirmed Allow/Deny receives of a sender in order
+	signedFor map[string]*definition.UnwrapTokenParam // bridge: signature made by the harness with the TSS key -> the request it signed
 	touched   map[types.Address]bool
 	tokens    map[types.ZenonTokenStandard]bool
 	dumped    bool
@@ -141,6 +145,17 @@ func (r *contractRun) fail(format string, a ...interface{}) {
 		tag = "after-BurnZnn-of-staked-ZNN: "
 	}
 	r.c.Fail("contract run=%d h=%d: %s%s", r.id, r.n.Height(), tag, fmt.Sprintf(format, a...))
+}
+
+// signedNote: for a signature the harness made itself, the request it was made for
+func (r *contractRun) signedNote(p *definition.UnwrapTokenParam) string {
+	if q := r.signedFor[p.Signature]; q != nil {
+		if sameUnwrapFields(p, q) {
+			return " (the harness signed exactly this request with the TSS key)"
+		}
+		return " (the harness made this signature with the TSS key for the request " + unwrapFields(q) + ")"
+	}
+	return ""
 }
 
 func (r *contractRun) storage(a types.Address) db.DB {
@@ -345,11 +360,16 @@ func (r *contractRun) decodeBridge(d *decoded, send *nom.AccountBlock, ackHeight
 			return
 		}
 		d.unwrap, d.id, d.logIndex = p, p.TransactionHash, p.LogIndex
+		// signature oracle, independent of the code under test: the signature recovers the configured TSS key from the hash of
+		// the documented encoding of exactly the presented fields, computed by the harness (s_contract_sig.go)
 		sigOk := false
-		if msg, err := implementation.GetUnwrapTokenRequestMessage(p); err == nil {
-			if bi, err := definition.GetBridgeInfoVariable(r.storage(types.BridgeContract)); err == nil {
-				ok, err := implementation.CheckECDSASignature(msg, bi.DecompressedTssECDSAPubKey, p.Signature)
-				sigOk = ok && err == nil
+		if bi, err := definition.GetBridgeInfoVariable(r.storage(types.BridgeContract)); err == nil {
+			sigOk = unwrapSigOkIndep(p, bi.DecompressedTssECDSAPubKey)
+			if msg, err := implementation.GetUnwrapTokenRequestMessage(p); err == nil {
+				if ok, err := implementation.CheckECDSASignature(msg, bi.DecompressedTssECDSAPubKey, p.Signature); (ok && err == nil) != sigOk {
+					r.fail("bridge signature check: the contract's own check (CheckECDSASignature over GetUnwrapTokenRequestMessage) answers %v for the unwrap request %s with signature %s, but 'the signature is the TSS key's signature of exactly these fields' is %v%s",
+						ok && err == nil, unwrapFields(p), p.Signature, sigOk, r.signedNote(p))
+				}
 			}
 		}
 		ta := strings.ToLower(p.TokenAddress)
@@ -738,7 +758,7 @@ func (r *contractRun) monitorReceive(b, send *nom.AccountBlock, d *decoded, stat
 				r.releaseCheck(b, "Unlock", lk, key, to, 0, h)
 				if lk != nil {
 					if !allowed() {
-						r.fail("release: Unlock of %s was called by %s although %s has denied proxy unlocks", key, addrName(send.Address), addrName(lk.second))
+						r.fail("release: Unlock of %s was called by %s although %s has denied proxy unlocks (its confirmed calls: [%s ])", key, addrName(send.Address), addrName(lk.second), r.proxyHist[lk.second])
 					}
 					if ackT >= lk.matureT {
 						r.fail("release: Unlock of %s succeeded at frontier time %d, it expired at %d", key, ackT, lk.matureT)
@@ -778,12 +798,16 @@ func (r *contractRun) monitorReceive(b, send *nom.AccountBlock, d *decoded, stat
 				r.c.Hit("htlc-unlock-by-proxy")
 			}
 		case definition.DenyHtlcProxyUnlockMethodName:
+			r.proxyCalls[send.Address]++
 			if ok {
 				r.proxy[send.Address] = false
+				r.proxyHist[send.Address] += fmt.Sprintf(" Deny@%d", h)
 			}
 		case definition.AllowHtlcProxyUnlockMethodName:
+			r.proxyCalls[send.Address]++
 			if ok {
 				r.proxy[send.Address] = true
+				r.proxyHist[send.Address] += fmt.Sprintf(" Allow@%d", h)
 			}
 		}
 	case types.BridgeContract:
@@ -796,10 +820,15 @@ func (r *contractRun) monitorReceive(b, send *nom.AccountBlock, d *decoded, stat
 				if lk != nil {
 					r.fail("release: unwrap request %s registered twice", key)
 				}
-				msg, err := implementation.GetUnwrapTokenRequestMessage(p)
 				bi, _ := definition.GetBridgeInfoVariable(r.storage(types.BridgeContract))
-				if sig, err2 := implementation.CheckECDSASignature(msg, bi.DecompressedTssECDSAPubKey, p.Signature); err != nil || err2 != nil || !sig {
-					r.fail("release: unwrap request %s was registered although its signature is not the TSS key's signature of the request", key)
+				if bi == nil || !unwrapSigOkIndep(p, bi.DecompressedTssECDSAPubKey) {
+					r.fail("release: unwrap request %s was registered as %s although its signature %s is not the TSS key's signature of exactly these fields%s", key, unwrapFields(p), p.Signature, r.signedNote(p))
+				}
+				if q := r.signedFor[p.Signature]; q != nil && !sameUnwrapFields(p, q) {
+					r.fail("release: unwrap request %s was registered as %s with the TSS signature the harness made for the DIFFERENT request %s - the signed request is not the one that is paid", key, unwrapFields(p), unwrapFields(q))
+				}
+				if p.Amount.BitLen() > 64 {
+					r.c.Hit("unwrap-registered-amount-above-2^64")
 				}
 				ta := strings.ToLower(p.TokenAddress)
 				tp := r.bridgePair(p.NetworkClass, p.ChainId, func(t *definition.TokenPair) bool { return ta == t.TokenStandard.String() || ta == t.TokenAddress })
@@ -1265,7 +1294,7 @@ func (r *contractRun) compareState(h uint64) {
 				c.Emit("K-proxy %s | %v", addrName(e.Address), e.Allowed)
 			}
 			if v, set := r.proxy[e.Address]; !set || v != e.Allowed {
-				r.fail("storage: proxy-unlock setting of %s is %v, the confirmed calls say set=%v value=%v", addrName(e.Address), e.Allowed, set, v)
+				r.fail("storage: proxy-unlock setting of %s is allowed=%v after its confirmed calls [%s ] (call@momentum), the confirmed calls say set=%v allowed=%v: the flag is what the LAST Allow/Deny call said", addrName(e.Address), e.Allowed, r.proxyHist[e.Address], set, v)
 			}
 		}
 		c.Emit("K-digest htlc | %d %d", len(hl), len(pl))
@@ -1571,7 +1600,7 @@ func contractHistory(c *Ctx, id int) {
 		n = NewNode()
 	}
 	defer n.Stop()
-	r := &contractRun{c: c, n: n, id: id, p: p, locks: map[string]*lockRec{}, qsrLog: map[string]*big.Int{}, preimages: map[types.Hash][]byte{}, proxy: map[types.Address]bool{}, revoked: map[string]bool{}, runBal: map[types.Address]map[types.ZenonTokenStandard]*big.Int{},
+	r := &contractRun{c: c, n: n, id: id, p: p, locks: map[string]*lockRec{}, qsrLog: map[string]*big.Int{}, preimages: map[types.Hash][]byte{}, proxy: map[types.Address]bool{}, signedFor: map[string]*definition.UnwrapTokenParam{}, proxyCalls: map[types.Address]int{}, proxyHist: map[types.Address]string{}, revoked: map[string]bool{}, runBal: map[types.Address]map[types.ZenonTokenStandard]*big.Int{},
 		touched: map[types.Address]bool{}, tokens: map[types.ZenonTokenStandard]bool{types.ZnnTokenStandard: true, types.QsrTokenStandard: true}}
 
 	c.Emit("K-reset")
@@ -1749,6 +1778,7 @@ func contractHistory(c *Ctx, id int) {
 	withBridge := withHtlc && !withLiq && (c.Args["bridge"] == "1" || (c.Args["bridge"] == "" && id%2 == 1))
 	var ownedZts types.ZenonTokenStandard
 	tokenAddrs := map[types.ZenonTokenStandard]string{}
+	var altNets [][2]uint32
 	if withBridge {
 		constants.InitialBridgeAdministrator, constants.MinGuardians, constants.MinAdministratorDelay, constants.MinSoftDelay, constants.MinUnhaltDurationInMomentums = g.User5.Address, 4, 20, 10, 5
 		admin := g.User5.Address
@@ -1794,6 +1824,19 @@ func contractHistory(c *Ctx, id int) {
 		if okSetup && ownedZts != types.ZeroTokenStandard {
 			tokenAddrs[ownedZts] = "0xfb6916095ca1df60bb79ce92ce3ea74c37c5d359"
 			okSetup = challenged(10, definition.SetTokenPairMethod, bridgeNetClass, bridgeChainId, ownedZts, tokenAddrs[ownedZts], true, true, true, big.NewInt(1), uint32(0), redeemDelay+1, "{}")
+		}
+		// two further networks with the SAME ZNN pair (same foreign token address, same delay): a request signed for one network
+		// and presented for the other differs in the chain id / in the network class alone and reaches the signature check
+		if okSetup && !r.failed {
+			for _, nc := range [][2]uint32{{bridgeNetClass, bridgeChainId + 1}, {definition.NoMClass, bridgeChainId}} {
+				if adminCall(definition.SetNetworkMethodName, nc[0], nc[1], fmt.Sprintf("Net-%d-%d", nc[0], nc[1]), "0x323b5d4c32345ced77393b3530b1eed0f346429d", "{}") && advance(2) &&
+					challenged(10, definition.SetTokenPairMethod, nc[0], nc[1], types.ZnnTokenStandard, tokenAddrs[types.ZnnTokenStandard], true, true, false, big.NewInt(100), uint32(15), redeemDelay, "{}") {
+					if r.bridgePair(nc[0], nc[1], func(t *definition.TokenPair) bool { return t.TokenStandard == types.ZnnTokenStandard }) != nil {
+						altNets = append(altNets, nc)
+					}
+				}
+			}
+			c.Hit(fmt.Sprintf("bridge-further-networks-%d", len(altNets)))
 		}
 		ni, _ := definition.GetNetworkInfoVariable(r.storage(types.BridgeContract), bridgeNetClass, bridgeChainId)
 		if !okSetup || r.failed || ni == nil || len(ni.TokenPairs) < 2 || !r.bridgeCanAct(n.Height()+1) {
@@ -1969,6 +2012,164 @@ func contractHistory(c *Ctx, id int) {
 		c.Hit("flow-htlc-proxy-" + method)
 		return true
 	}
+	// proxy-flag history: the hash-locked party B of a fresh entry makes a generated sequence over {Allow, Deny} of length
+	// 0..4 (all 31 sequences; on top of whatever B called earlier in the history; one time in three all calls queue up in ONE
+	// momentum), the flag is read back through the RPC method embedded.htlc.getProxyUnlockStatus and through
+	// definition.GetHtlcProxyUnlockInfo after every confirmed call: it is what B's LAST call said (no call ever: allowed, no
+	// entry); then a third party presents the correct preimage (released iff the last call was Allow or there was none), then
+	// B itself (always released). The receives are judged by the release monitor, the storage comparison and the Lean replay.
+	proxyHistoryFlow := func() bool {
+		B := pick(users)
+		D, T := pick(users), pick(users)
+		for k := 0; k < 8 && T == B; k++ {
+			T = pick(users)
+		}
+		if T == B {
+			return true
+		}
+		L := []int{0, 1, 2, 2, 2, 3, 3, 3, 4, 4}[c.R.Intn(10)]
+		seq := make([]bool, L)
+		name := ""
+		for i := range seq {
+			seq[i] = c.R.Intn(2) == 0
+			if seq[i] {
+				name += "A"
+			} else {
+				name += "D"
+			}
+		}
+		pre := make([]byte, 32)
+		c.R.Read(pre)
+		ty := uint8(c.R.Intn(2))
+		tok := types.ZnnTokenStandard
+		if c.R.Intn(2) == 0 {
+			tok = types.QsrTokenStandard
+		}
+		exp := frontierTime() + 10*int64(40+c.R.Intn(20))
+		b := call(D, types.HtlcContract, tok, qsr(int64(1+c.R.Intn(20))), "Create", definition.ABIHtlc.PackMethodPanic(definition.CreateHtlcMethodName, B, exp, ty, uint8(32), hashOf(ty, pre)))
+		if b == nil {
+			return true
+		}
+		r.preimages[b.Hash] = pre
+		if !advance(3) { // the entry exists and every earlier call of B has been received
+			return false
+		}
+		api := embedded.NewHtlcApi(n.Z)
+		readBack := func(after string) bool {
+			want, set := r.proxy[B] // the last confirmed call of B, kept by the release monitor from the confirmed receives
+			got, err := api.GetProxyUnlockStatus(B)
+			if err != nil {
+				r.fail("htlc proxy flag: getProxyUnlockStatus(%s) after %s: %v", addrName(B), after, err)
+				return false
+			}
+			if got != (!set || want) {
+				r.fail("htlc proxy flag: after the calls %s of %s (last confirmed call: set=%v allow=%v) embedded.htlc.getProxyUnlockStatus answers %v - the flag must be what the LAST Allow/Deny call said (allowed when there was none)",
+					after, addrName(B), set, want, got)
+				return false
+			}
+			info, err := definition.GetHtlcProxyUnlockInfo(r.storage(types.HtlcContract), B)
+			if set && (err != nil || info == nil || info.Allowed != want) {
+				r.fail("htlc proxy flag: after the calls %s of %s the stored entry (GetHtlcProxyUnlockInfo) is %+v / %v, the last call said allow=%v", after, addrName(B), info, err, want)
+				return false
+			}
+			if !set && err == nil {
+				r.fail("htlc proxy flag: %s never called Allow/Deny but an entry %+v is stored", addrName(B), info)
+				return false
+			}
+			return true
+		}
+		batched := L >= 2 && c.R.Intn(3) == 0
+		received0 := r.proxyCalls[B]
+		done := "[]"
+		if _, set := r.proxy[B]; set {
+			done = "[earlier calls]"
+		}
+		for i, allow := range seq {
+			method := definition.DenyHtlcProxyUnlockMethodName
+			if allow {
+				method = definition.AllowHtlcProxyUnlockMethodName
+			}
+			if call(B, types.HtlcContract, types.ZnnTokenStandard, zero, method, definition.ABIHtlc.PackMethodPanic(method)) == nil {
+				return true
+			}
+			done += " " + method
+			if batched && i < L-1 {
+				continue
+			}
+			if !advance(2) {
+				return false
+			}
+			for k := 0; k < 4 && r.proxyCalls[B] < received0+i+1; k++ { // every call made so far has been received by the contract
+				if !advance(1) {
+					return false
+				}
+			}
+			if r.proxyCalls[B] != received0+i+1 {
+				c.Hit("flow-htlc-proxy-history-abandoned")
+				return true
+			}
+			if !readBack(done) {
+				return false
+			}
+		}
+		if L == 0 && (!advance(2) || !readBack(done)) {
+			return !r.failed
+		}
+		ends := "none"
+		if L == 1 {
+			ends = name
+		} else if L >= 2 {
+			ends = name[L-2:]
+		}
+		if _, set := r.proxy[B]; L == 0 && set {
+			ends = "earlier"
+		}
+		c.Hit(fmt.Sprintf("flow-htlc-proxy-history-ends-%s", ends))
+		c.Hit(fmt.Sprintf("flow-htlc-proxy-history-len-%d", L))
+		if batched {
+			c.Hit("flow-htlc-proxy-history-in-one-momentum")
+		}
+		want, set := r.proxy[B]
+		allowedNow := !set || want
+		// the third party presents the correct preimage
+		if call(T, types.HtlcContract, types.ZnnTokenStandard, zero, "Unlock", definition.ABIHtlc.PackMethodPanic(definition.UnlockHtlcMethodName, b.Hash, pre)) == nil {
+			return true
+		}
+		if !advance(2) {
+			return false
+		}
+		open := false
+		for _, e := range r.htlcs {
+			if e.Id == b.Hash {
+				open = true
+			}
+		}
+		if open == allowedNow {
+			r.fail("htlc proxy unlock: %s made the calls %s (last call: set=%v allow=%v); the Unlock of %s by the third party %s with the correct preimage before expiry left the entry open=%v - a proxy unlock succeeds iff the LAST Allow/Deny call of the hash-locked party was Allow or there was none",
+				addrName(B), done, set, want, h8z(b.Hash), addrName(T), open)
+			return false
+		}
+		if allowedNow {
+			c.Hit("flow-htlc-proxy-history-proxy-unlock-released")
+			return true
+		}
+		c.Hit("flow-htlc-proxy-history-proxy-unlock-refused")
+		// the hash-locked party itself is never bound by its own flag
+		if call(B, types.HtlcContract, types.ZnnTokenStandard, zero, "Unlock", definition.ABIHtlc.PackMethodPanic(definition.UnlockHtlcMethodName, b.Hash, pre)) == nil {
+			return true
+		}
+		if !advance(2) {
+			return false
+		}
+		for _, e := range r.htlcs {
+			if e.Id == b.Hash {
+				r.fail("htlc own unlock: the Unlock of %s by its hash-locked party %s with the correct preimage before expiry left the entry open (proxy flag history %s)", h8z(b.Hash), addrName(B), done)
+				return false
+			}
+		}
+		c.Hit("flow-htlc-proxy-history-own-unlock-released")
+		return true
+	}
 	// length-boundary scenario: an entry whose secret has a length at / next to the entry's KeyMaxSize, at 255 / 256 / 257,
 	// at twice the maximum, or one that fits KeyMaxSize only modulo 2^8 (k*256 + j with j <= KeyMaxSize) - the hash lock IS
 	// the digest of that secret, so the length rule alone decides. The hash-locked party (or a third party) presents it
@@ -2030,6 +2231,9 @@ func contractHistory(c *Ctx, id int) {
 		y := c.R.Intn(100)
 		if c.R.Intn(8) == 0 {
 			return proxyFlow()
+		}
+		if c.R.Intn(12) == 0 {
+			return proxyHistoryFlow()
 		}
 		if c.R.Intn(6) == 0 {
 			return lenFlow()
@@ -2393,6 +2597,114 @@ func contractHistory(c *Ctx, id int) {
 	}
 
 	unwrapSeq := 0
+	// UnwrapToken: signed by the TSS key / by another key / altered after signing / duplicate / unknown token / not redeemable;
+	// amounts at and beyond 2^64; the one-field mutation family: the signature is made for request R (by the harness's own
+	// statement of the message, s_contract_sig.go) and presented with R' that differs from R in ONE field of the message -
+	// every field in turn (force names the field, "" = generated) -, then mostly R itself in the same momentum
+	genUnwrap := func(force string) {
+		toks := []types.ZenonTokenStandard{types.ZnnTokenStandard, types.ZnnTokenStandard, types.QsrTokenStandard}
+		if ownedZts != types.ZeroTokenStandard {
+			toks = append(toks, ownedZts, ownedZts)
+		}
+		tok := toks[c.R.Intn(len(toks))]
+		nets := append([][2]uint32{{bridgeNetClass, bridgeChainId}}, altNets...)
+		net := nets[0]
+		if len(altNets) > 0 && (c.R.Intn(6) == 0 || force == "network-class" || force == "chain-id") {
+			net, tok = nets[c.R.Intn(len(nets))], types.ZnnTokenStandard
+		}
+		if force == "token-address" || force == "amount" {
+			tok = types.ZnnTokenStandard
+		}
+		p := &definition.UnwrapTokenParam{NetworkClass: net[0], ChainId: net[1], LogIndex: uint32(c.R.Intn(3)), ToAddress: pick(anyAddr),
+			TokenAddress: tokenAddrs[tok], Amount: qsr(int64(1 + c.R.Intn(20)))}
+		if c.R.Intn(4) == 0 {
+			var kind string
+			p.Amount, kind = unwrapBoundaryAmount(c.R, p.Amount)
+			c.Hit("bridge-unwrap-amount-" + kind)
+		}
+		unwrapSeq++
+		p.TransactionHash = types.NewHash([]byte(fmt.Sprintf("eth-tx-%d-%d", id, unwrapSeq)))
+		variant := c.R.Intn(18)
+		if force != "" {
+			variant = 8
+		}
+		switch variant {
+		case 0:
+			if len(r.unwraps) > 0 { // an already registered (tx, log)
+				e := r.unwraps[c.R.Intn(len(r.unwraps))]
+				p.TransactionHash, p.LogIndex = e.TransactionHash, e.LogIndex
+			}
+		case 1:
+			p.TokenAddress = "0x00000000000000000000000000000000000000aa" // no pair
+		case 2:
+			p.ChainId = 77 // unknown network
+		case 3:
+			p.Amount = qsr(2000000) // more than the bridge holds
+		}
+		msg, ok := unwrapHashIndep(p)
+		if !ok {
+			return
+		}
+		key := tssPrivKey
+		if variant == 4 {
+			key = "tuSwrTEUyJI1/3y5J8L8DSjzT/AQG2IK3JG+93qhhhE=" // another key
+		}
+		p.Signature = ecdsaSign(msg, key)
+		if key == tssPrivKey && p.Signature != "" {
+			r.signedFor[p.Signature] = copyUnwrap(p)
+		}
+		submit := func(q *definition.UnwrapTokenParam) {
+			am, tk := withAmount()
+			call(pick(users), types.BridgeContract, tk, am, "UnwrapToken", definition.ABIBridge.PackMethodPanic(definition.UnwrapTokenMethodName,
+				q.NetworkClass, q.ChainId, q.TransactionHash, q.LogIndex, q.ToAddress, q.TokenAddress, q.Amount, q.Signature))
+		}
+		switch {
+		case variant == 5:
+			p.Amount = new(big.Int).Add(p.Amount, big.NewInt(1)) // altered after signing
+		case variant == 6:
+			p.ToAddress = pick(users) // redirected after signing
+		case variant == 7:
+			p.Signature = ""
+		case variant >= 8 && variant <= 11:
+			altTokens := []string{tokenAddrs[types.ZnnTokenStandard]}
+			if ownedZts != types.ZeroTokenStandard {
+				altTokens = append(altTokens, tokenAddrs[ownedZts], tokenAddrs[ownedZts])
+			}
+			if c.R.Intn(4) == 0 {
+				altTokens = append(altTokens, tokenAddrs[types.QsrTokenStandard], "0x00000000000000000000000000000000000000aa")
+			}
+			muts := unwrapMutations(c.R, p, altTokens, []types.Address{pick(users), pick(anyAddr)}, nets)
+			classes := []string{}
+			byClass := map[string][]unwrapMutation{}
+			for _, m := range muts {
+				k := mutClass(m.name)
+				if byClass[k] == nil {
+					classes = append(classes, k)
+				}
+				byClass[k] = append(byClass[k], m)
+			}
+			if len(classes) == 0 {
+				break
+			}
+			cl := classes[c.R.Intn(len(classes))]
+			if c.R.Intn(4) == 0 {
+				cl = "amount"
+			}
+			if force != "" && byClass[force] != nil {
+				cl = force
+			}
+			m := byClass[cl][c.R.Intn(len(byClass[cl]))]
+			submit(m.p) // R' first: it must be refused; then R itself, which must still be accepted
+			c.Hit("bridge-unwrap-signed-for-another-request-" + cl)
+			if cl == "amount" && new(big.Int).Sub(m.p.Amount, p.Amount).TrailingZeroBits() >= 64 {
+				c.Hit("bridge-unwrap-signed-amount-differs-by-multiple-of-2^64")
+			}
+			if c.R.Intn(4) == 0 {
+				return
+			}
+		}
+		submit(p)
+	}
 	genBridge := func() {
 		y := c.R.Intn(100)
 		if len(r.unwraps) == 0 && y >= 55 && c.R.Intn(5) != 0 {
@@ -2406,50 +2718,8 @@ func contractHistory(c *Ctx, id int) {
 				am = big.NewInt(int64(c.R.Intn(100)))
 			}
 			call(pick(users), types.BridgeContract, tok, am, "WrapToken", definition.ABIBridge.PackMethodPanic(definition.WrapTokenMethodName, bridgeNetClass, bridgeChainId, "0xb794f5ea0ba39494ce839613fffba74279579268"))
-		case y < 55: // UnwrapToken: signed by the TSS key / by another key / altered after signing / duplicate / unknown token / not redeemable
-			toks := []types.ZenonTokenStandard{types.ZnnTokenStandard, types.ZnnTokenStandard, types.QsrTokenStandard}
-			if ownedZts != types.ZeroTokenStandard {
-				toks = append(toks, ownedZts, ownedZts)
-			}
-			tok := toks[c.R.Intn(len(toks))]
-			p := &definition.UnwrapTokenParam{NetworkClass: bridgeNetClass, ChainId: bridgeChainId, LogIndex: uint32(c.R.Intn(3)), ToAddress: pick(anyAddr),
-				TokenAddress: tokenAddrs[tok], Amount: qsr(int64(1 + c.R.Intn(20)))}
-			unwrapSeq++
-			p.TransactionHash = types.NewHash([]byte(fmt.Sprintf("eth-tx-%d-%d", id, unwrapSeq)))
-			variant := c.R.Intn(14)
-			switch variant {
-			case 0:
-				if len(r.unwraps) > 0 { // an already registered (tx, log)
-					e := r.unwraps[c.R.Intn(len(r.unwraps))]
-					p.TransactionHash, p.LogIndex = e.TransactionHash, e.LogIndex
-				}
-			case 1:
-				p.TokenAddress = "0x00000000000000000000000000000000000000aa" // no pair
-			case 2:
-				p.ChainId = 77 // unknown network
-			case 3:
-				p.Amount = qsr(2000000) // more than the bridge holds
-			}
-			msg, err := implementation.GetUnwrapTokenRequestMessage(p)
-			if err != nil {
-				return
-			}
-			key := tssPrivKey
-			if variant == 4 {
-				key = "tuSwrTEUyJI1/3y5J8L8DSjzT/AQG2IK3JG+93qhhhE=" // another key
-			}
-			p.Signature = ecdsaSign(msg, key)
-			switch variant {
-			case 5:
-				p.Amount = new(big.Int).Add(p.Amount, big.NewInt(1)) // altered after signing
-			case 6:
-				p.ToAddress = pick(users) // redirected after signing
-			case 7:
-				p.Signature = ""
-			}
-			am, tk := withAmount()
-			call(pick(users), types.BridgeContract, tk, am, "UnwrapToken", definition.ABIBridge.PackMethodPanic(definition.UnwrapTokenMethodName,
-				p.NetworkClass, p.ChainId, p.TransactionHash, p.LogIndex, p.ToAddress, p.TokenAddress, p.Amount, p.Signature))
+		case y < 55:
+			genUnwrap("")
 		case y < 92: // Redeem: by anybody, before / after the delay, repeated, revoked, unknown
 			var tx types.Hash
 			var li uint32
@@ -2647,6 +2917,23 @@ func contractHistory(c *Ctx, id int) {
 		return true
 	}
 
+	// directed scenarios of every history: (htlc) one proxy-flag history followed by a proxy unlock and an own unlock;
+	// (bridge) the message sweep and one signature made for request R presented with R' differing in one field - the field
+	// rotates with the history
+	if withHtlc && !proxyHistoryFlow() {
+		return
+	}
+	if withBridge && !r.failed {
+		toks := []string{tokenAddrs[types.ZnnTokenStandard], tokenAddrs[types.QsrTokenStandard], "0x00000000000000000000000000000000000000aa", "0xFFfFfFffFFfffFFfFFfFFFFFffFFFffffFfFFFfF"}
+		if w := unwrapMessageSweep(c.R, 6, toks, anyAddr, c.Hit); w != "" && c.Args["sweep"] != "0" {
+			r.fail("bridge unwrap message: %s", w)
+			return
+		}
+		genUnwrap([]string{"amount", "network-class", "chain-id", "tx-hash", "log-index", "to-address", "token-address", "amount"}[(id/2)%8])
+		if !advance(2) {
+			return
+		}
+	}
 	for s := 0; s < steps && !r.failed && int(n.Height()-start) < budget; s++ {
 		x := c.R.Intn(100)
 		rewardOdds := 40
